@@ -14,7 +14,7 @@ import tempfile
 
 from harness import par, tlc, valgamma
 
-UNMODELLED = ["ExecutableDefinitionsChecker", "SingleFieldSubscriptionsChecker", "UniqueInputFieldNamesChecker"]
+UNMODELLED = ["ExecutableDefinitionsChecker"]
 # An error is attributable to a specification rule when one of these visitor classes, run alone, reports.  "Fragment spread type
 # existence" (5.5.1.2) is reported by FragmentsOnCompositeTypesChecker: type conditions are not visited as nodes, so
 # KnownTypeNamesChecker never sees them (pinned by tests/test_validation/rules/test_known_type_names.py).
@@ -243,7 +243,7 @@ def run(chk, props=("C06",)):
             chk.diverge(k, wit, what)
     d0 = cases[len(cases) // 2]
     chk.sample({"query": valgamma.render(d0[0]), "label": d0[2], "spec_verdict": d0[1]})
-    chk.assumptions += ["23 rules are modelled; documents on which one of the 3 unmodelled rules fires are excluded from the full-verdict clause (the generated documents contain no subscriptions or type definitions, so in practice only duplicate input-object keys)",
+    chk.assumptions += ["25 of the 26 rules are modelled (ExecutableDefinitionsChecker is not: the documents are parsed without allow_type_system)",
                         "attribution: a rule is 'reported' when its own visitor class (or a class listed for it in ATTRIBUTION) run alone reports at least one error; demanded only of documents breaking exactly one rule, as the property states; for several broken rules at least one of them must report"]
     return chk.finish(rule="random documents + 27 labelled injections into all-valid bases + permutation / renaming variants, judged by TLC")
 
